@@ -70,6 +70,17 @@ def blocks_for(draw, m, allow_band=True, unit=False):
     return out
 
 
+def _offset(draw, A, b):
+    """large absolute terms with small residuals: b + A x0 for a large x0 (approximate values far from the solution, as with
+    heights given as 0 in a network at 3000 m).  The residuals and v'Pv stay those of b; formulas that obtain v'Pv as a
+    difference of large numbers (b'Pb - x'A'Pb) lose them."""
+    if draw(st.integers(0, 3)) != 0:
+        return b, 0
+    k = draw(st.integers(3, 7))
+    x0 = np.array([draw(st.integers(-9, 9)) for _ in range(A.shape[1])], dtype=float) * 10.0 ** k
+    return [float(v) for v in (np.array(b, float) + A @ x0)], k
+
+
 @st.composite
 def linear_problem(draw, max_n=9, max_extra=10, unit_cov=False, singular_only=False,
                    minx_mode=None):
@@ -117,6 +128,7 @@ def linear_problem(draw, max_n=9, max_extra=10, unit_cov=False, singular_only=Fa
     A = np.column_stack([cols[p] for p in perm]) if n else np.zeros((m, 0))
     dep_positions = [i for i, p in enumerate(perm) if p >= r]
     b = [draw(st.integers(-20, 20)) / (2.0 if real else 1.0) for _ in range(m)]
+    b, offset = _offset(draw, A, b) if n else (b, 0)
     blocks = draw(blocks_for(m, unit=unit_cov))
     # regularisation
     mode = minx_mode or draw(st.sampled_from(["none", "all", "subset", "subset", "depcols"]))
@@ -147,7 +159,7 @@ def linear_problem(draw, max_n=9, max_extra=10, unit_cov=False, singular_only=Fa
     if minx is not None and draw(st.booleans()):
         minx = list(draw(st.permutations(minx)))
     return {"m": int(m), "n": int(n), "A": A.tolist(), "b": b, "blocks": blocks,
-            "minx": minx, "d": int(d), "zero_col": zero_col, "mode": mode}
+            "minx": minx, "d": int(d), "zero_col": zero_col, "mode": mode, "offset": offset}
 
 
 def script_problem(case, minx="case"):
@@ -242,6 +254,7 @@ def graph_problem(draw, min_n=10, max_n=40, singular_only=False, minx_mode=None)
         for j, v in rows[k].items():
             A[r, j] = v
     b = [float(draw(st.integers(-20, 20))) for _ in range(m)]
+    b, offset = _offset(draw, A, b)
     blocks = []
     left = m
     while left > 0:
@@ -273,4 +286,4 @@ def graph_problem(draw, min_n=10, max_n=40, singular_only=False, minx_mode=None)
         if draw(st.booleans()):
             minx = list(draw(st.permutations(minx)))
     return {"m": int(m), "n": int(n), "A": A.tolist(), "b": b, "blocks": blocks,
-            "minx": minx, "d": int(d), "zero_col": zero_col, "mode": mode, "graph": True}
+            "minx": minx, "d": int(d), "zero_col": zero_col, "mode": mode, "graph": True, "offset": offset}
